@@ -1,2 +1,3 @@
 SPECIFICATION Spec
-CONSTANTS D = 2
+CONSTANTS D = 3
+ Small = TRUE
